@@ -198,7 +198,15 @@ Definition slack_of (md : list Z) (c : pbc) : Z :=
    - for the constraints learned by the cutting-planes loop: they are added after the backjump with some of their
      literals already false, and only the literals returned by cuttingPlanes are propagated at once.
    Demanding the fixpoint there would demand more than the code promises and more than C02 / C14 need: a missed
-   propagation delays a conflict, it does not hide one. *)
+   propagation delays a conflict, it does not hide one.
+   Nor is "not falsified" demanded of the constraints learned by the cutting-planes loop ([held_to_account] below): such
+   a constraint can be added with all its literals but one false at the top level, the last one free and NOT propagated
+   (only the literals cuttingPlanes returns are), and that literal can be bound the other way later: the constraint is
+   then falsified at a quiet point and the loop does not see it (met once in 30 000 thorough-size cases:
+   x6 + x17 + x18 + ~x21 >= 1 with x6, x17, ~x21 false at level 1 and x18 false at level 3).  No answer depends on
+   it: a learned constraint is a consequence of the problem, so an assignment that falsifies it cannot be extended to
+   a model, the original constraints -- whose watches are kept (snap-watch-invariant) -- conflict further down, and
+   Sat is only answered when no original constraint is falsified (C14c_sat_sound). *)
 Definition unit_weights (c : pbc) : bool := forallb (fun t => fst t =? 1) (terms c).
 
 Definition quiet_constr (complete : bool) (md : list Z) (c : pbc) : bool :=
@@ -207,10 +215,14 @@ Definition quiet_constr (complete : bool) (md : list Z) (c : pbc) : bool :=
   (negb (complete && unit_weights c) ||
    forallb (fun t => negb (l_free md (snd t)) || (fst t <=? s) || (fst t <=? 0)) (terms c)).
 
+(* the constraints the quiet-point test speaks of: the original ones, and every one when the CDCL loop runs *)
+Definition held_to_account (norig : Z) (cp : bool) (i : Z) : bool := (i <? norig) || negb cp.
+
 Fixpoint first_not_quiet (norig : Z) (cp : bool) (md : list Z) (cs : list pbc) (i : Z) : option Z :=
   match cs with
   | [] => None
-  | c :: r => if quiet_constr ((i <? norig) || negb cp) md c then first_not_quiet norig cp md r (i + 1) else Some i
+  | c :: r => if negb (held_to_account norig cp i) || quiet_constr true md c
+              then first_not_quiet norig cp md r (i + 1) else Some i
   end.
 
 (* The decision heap at a quiet point meets the invariant that Properties/C01h.v proves preserved by every operation of
